@@ -148,7 +148,7 @@ class PerceptionEvaluationConfig(_EvaluationConfigBase):
             min_distance_list = None
         elif None not in (max_distance, min_distance):
             max_distance_list: List[float] = set_thresholds(max_distance, num_elements, False)
-            min_distance_list: List[float] = [min_distance] * len(target_labels)
+            min_distance_list: List[float] = set_thresholds(min_distance, num_elements, False)
             max_x_position_list = None
             max_y_position_list = None
         elif self.evaluation_task.is_2d():
